@@ -24,13 +24,13 @@ def run(ctx):
     rp = lambda fl: ('system-' + fl['kind'], ['tools/sys_c05.py: real sccache + rustc on a generated crate', 'observed: ' + fl['detail']], '\n'.join(fl['ops']))
     if cargo_repo_bins(ctx, ('sccache', 'sccache-dist')):
         for h in range(2 if ctx.quick() else 20):
-            res = sys_c05.run(os.path.join(ctx.work, 'sys'), f'c05{h}', ctx.seed * 29 + h, 10 if ctx.quick() else 30)
+            res = sys_c05.run(os.path.join(ctx.work, 'sys'), f'c05{h}', ctx.seed * 29 + h, 10 if ctx.quick() else 30, script=sys_c05.ENV_SCRIPT if h == 0 else ())
             ctx.evaluations += res['requests']; ctx.distinct_nontrivial += res['misses']; ctx.samples += res['samples'][:1]
             ctx.cov.setdefault('system', []).append({k: v for k, v in res.items() if k not in ('fails', 'samples')})
             monitor_failures(ctx, res['fails'], findings, 'rustc history monitor', rp)
         line, fails = sys_c05.extern_alias(os.path.join(ctx.work, 'sysa'), 'c05a')
         ctx.samples.append(line); monitor_failures(ctx, fails, findings, 'extern alias witness replay', rp)
-    ctx.rules.append('framing: random OsString / String / PathBuf values through a write-only Hasher; system: histories over a crate with a module, include_str!, env!, a cfg feature and an extern rlib — '
+    ctx.rules.append('framing: random OsString / String / PathBuf values through a write-only Hasher; system: histories over a crate with a module, include_str!, env! / option_env! of a plain, a CARGO_PKG_* and a CARGO_REGISTRIES_* variable (set / changed / unset, scripted first), a cfg feature and an extern rlib — '
                      'edit of each input (must miss), reorder --cfg and --extern/-L (must hit), repeat (must hit); every out-dir compared file by file with a direct rustc run')
     ctx.assumptions += ["rustc's dep-info lists every source file and env! variable (assumed complete)", 'the component order of the pre-image is hand-read from rust.rs; the byte-exact tie covers the framing, the end-to-end monitor covers sensitivity']
     ctx.notes.append('not modelled: parse_arguments of rust.rs (cacheable-shape decision) and the outputs computation (rlib/rmeta/dep-info fix-ups); partial')
